@@ -92,6 +92,9 @@ def annotation_stub(self, obj):
     """contract of WrapMeta.__call__: same action, annotations = old | {self}, obj unchanged; the declaration is
     assumed true (the property's proviso 'provided the user's own declarations were true')."""
     from vcgen.absop import AbstractOp, M, holds
+    if getattr(CTX, "check_declarations", False) and not getattr(CTX, "declaring_inputs", False):
+        # a declaration made by library code about its own result must be true (C05)
+        CTX.require(holds(self, M(obj)), f"library declares {self.__name__} on a {type(obj).__name__.split('[')[0]}: true of its matrix")
     if isinstance(obj, AbstractOp):
         new = AbstractOp(obj.label + "@" + self.__name__, obj.shape[0], obj.shape[1], obj.dtype,
                          annotations=set(obj.annotations) | {self}, M=M(obj), assume=False)
